@@ -1,6 +1,9 @@
 package commitlog
 
-import "io"
+import (
+	"io"
+	"strings"
+)
 
 // vKeyEq: Go-level key identity used by the oracle: nil means "no key";
 // an empty key is a key (equal only to other empty keys).
@@ -135,7 +138,29 @@ func VerifC08Compact() {
 		vCover("multi-segment")
 	}
 	keep := vSurvivors(model, hw, lastBase)
+	// optionally an append (which may roll a new segment) arrives while the
+	// compaction is running
+	fired := false
+	if vParam("concurrent", 1) == 1 && vChoose(2) == 1 {
+		vLogHook = func(f string) {
+			if fired || !strings.HasPrefix(f, "Compacting log") {
+				return
+			}
+			fired = true
+			v := vNondetBytes("val", 1)
+			k := vNondetBytes("key", 1)
+			_, err := l.Append([]*Message{{Key: k, Value: v, Timestamp: prevTs, LeaderEpoch: epoch, MagicByte: 2}})
+			vAssert(err == nil, "Append during compaction succeeds")
+			model = append(model, vStored{vMsg: vMsg{Offset: int64(n), Key: k, Value: v, Timestamp: prevTs, Epoch: epoch}})
+			keep = append(keep, true)
+		}
+	}
 	vAssert(l.Clean() == nil, "Clean succeeds")
+	vLogHook = nil
+	if fired {
+		vCover("append-during-compaction")
+		n++
+	}
 	vCheckSurvivors(l, model, keep, vParam("reverse", 1) == 1)
 	vAssert(l.NewestOffset() == int64(n-1), "NewestOffset unchanged by compaction")
 	// idempotence
